@@ -44,6 +44,11 @@ void ProbeUtilities() {
   (void)SipHash::Compute(name, 1, 2);
   (void)SipHash::Compute(bytes, 3, 4);
   (void)SipHash::Compute(BlockReader<std::uint8_t>(bytes), 5, 6);
+  // the generic overload accepts any container with size() and operator[]: plain-char containers must hash like bytes
+  (void)SipHash::Compute(std::string{"na\xc3\xafve"}, 1, 2);
+  (void)SipHash::Compute(std::vector<char>{'a', '\xff'}, 1, 2);
+  (void)SipHash::Compute(std::array<signed char, 3>{{1, -1, 2}}, 1, 2);
+  (void)SipHash::Compute(std::vector<std::uint8_t>{1, 255}, 1, 2);
   constexpr std::uint64_t kCompileTime = SipHash::Compute("abcdefghijklmnop", 7, 8);
   static_assert(kCompileTime != 0, "");
 
